@@ -8,13 +8,18 @@ use alloc::vec::Vec;
 use core::borrow::Borrow;
 use core::hash::Hash;
 
+/// Fixed-capacity, heap-free association list. (A `Vec`-backed list made CBMC run out of memory: the table's
+/// values are padded structs and several call sites push to it — see DESIGN section 4.) When the capacity is
+/// exceeded an insertion is dropped: for a memo table this only means "not remembered", i.e. re-evaluation.
+pub const CAP: usize = 6;
+
 pub struct HashMap<K, V> {
-    items: Vec<(K, V)>,
+    items: [Option<(K, V)>; CAP],
 }
 
 impl<K, V> Default for HashMap<K, V> {
     fn default() -> Self {
-        HashMap { items: Vec::new() }
+        HashMap { items: [None, None, None, None, None, None] }
     }
 }
 
@@ -22,22 +27,42 @@ impl<K: Eq + Hash, V> HashMap<K, V> {
     pub fn new() -> Self {
         Self::default()
     }
-    pub fn with_capacity(n: usize) -> Self {
-        HashMap { items: Vec::with_capacity(n) }
+    pub fn with_capacity(_n: usize) -> Self {
+        Self::default()
     }
     pub fn len(&self) -> usize {
-        self.items.len()
+        let mut n = 0;
+        let mut i = 0;
+        while i < CAP {
+            if self.items[i].is_some() {
+                n += 1;
+            }
+            i += 1;
+        }
+        n
     }
     pub fn is_empty(&self) -> bool {
-        self.items.is_empty()
+        self.len() == 0
     }
     fn find<Q: ?Sized + Eq>(&self, k: &Q) -> Option<usize>
     where
         K: Borrow<Q>,
     {
         let mut i = 0;
-        while i < self.items.len() {
-            if self.items[i].0.borrow() == k {
+        while i < CAP {
+            if let Some((key, _)) = &self.items[i] {
+                if key.borrow() == k {
+                    return Some(i);
+                }
+            }
+            i += 1;
+        }
+        None
+    }
+    fn free_slot(&self) -> Option<usize> {
+        let mut i = 0;
+        while i < CAP {
+            if self.items[i].is_none() {
                 return Some(i);
             }
             i += 1;
@@ -49,7 +74,7 @@ impl<K: Eq + Hash, V> HashMap<K, V> {
         K: Borrow<Q>,
     {
         match self.find(k) {
-            Some(i) => Some(&self.items[i].1),
+            Some(i) => self.items[i].as_ref().map(|kv| &kv.1),
             None => None,
         }
     }
@@ -61,9 +86,11 @@ impl<K: Eq + Hash, V> HashMap<K, V> {
     }
     pub fn insert(&mut self, k: K, v: V) -> Option<V> {
         match self.find(&k) {
-            Some(i) => Some(core::mem::replace(&mut self.items[i].1, v)),
+            Some(i) => self.items[i].replace((k, v)).map(|kv| kv.1),
             None => {
-                self.items.push((k, v));
+                if let Some(i) = self.free_slot() {
+                    self.items[i] = Some((k, v));
+                }
                 None
             }
         }
@@ -73,7 +100,7 @@ impl<K: Eq + Hash, V> HashMap<K, V> {
         K: Borrow<Q>,
     {
         match self.find(k) {
-            Some(i) => Some(self.items.swap_remove(i).1),
+            Some(i) => self.items[i].take().map(|kv| kv.1),
             None => None,
         }
     }
@@ -101,20 +128,32 @@ pub mod hash_map {
     }
     impl<'a, K, V> OccupiedEntry<'a, K, V> {
         pub fn get(&self) -> &V {
-            &self.map.items[self.idx].1
+            match &self.map.items[self.idx] {
+                Some(kv) => &kv.1,
+                None => unreachable!(),
+            }
         }
         pub fn get_mut(&mut self) -> &mut V {
-            &mut self.map.items[self.idx].1
+            match &mut self.map.items[self.idx] {
+                Some(kv) => &mut kv.1,
+                None => unreachable!(),
+            }
         }
         pub fn insert(&mut self, v: V) -> V {
-            core::mem::replace(&mut self.map.items[self.idx].1, v)
+            core::mem::replace(self.get_mut(), v)
         }
     }
     impl<'a, K, V> VacantEntry<'a, K, V> {
-        pub fn insert(self, v: V) -> &'a mut V {
-            self.map.items.push((self.key, v));
-            let n = self.map.items.len() - 1;
-            &mut self.map.items[n].1
+        /// (returns nothing: chumsky does not use the reference; a full table drops the entry)
+        pub fn insert(self, v: V) {
+            let mut i = 0;
+            while i < super::CAP {
+                if self.map.items[i].is_none() {
+                    self.map.items[i] = Some((self.key, v));
+                    return;
+                }
+                i += 1;
+            }
         }
     }
 }
